@@ -44,6 +44,17 @@ CLAIMED["C06"] = {
     "ref": "DESIGN.md section 5 (C06)",
 }
 
+CLAIMED["C14"] = {
+    "text": "Proof: file_flags_to_mode for every flag word (exact bit arithmetic on unbounded ints, no exception for any "
+            "access mode), io_counters (line loop with invariant over the symbolic /proc/<pid>/io: six counters under "
+            "the documented names, blank/malformed lines ignored, RuntimeError/ValueError cases) and num_fds, each "
+            "through the real wrap_exceptions decorator. open_files()' descriptor scan is covered by a bounded sweep "
+            "over generated descriptor tables (labelled bounded).",
+    "note": "io record grammar assumed; procfs environment model; O_* values of the running platform; bounded part "
+            "never counted as proved.",
+    "ref": "DESIGN.md section 5 (C14)",
+}
+
 NOT_YET = "check not built yet (work in progress, see DESIGN.md section 7)"
 NA = {}
 
